@@ -33,6 +33,7 @@ class Report:
 
     def check(self, cond, rule, instance, site, why_bad, note='', key=None, fn='', details=None):
         if cond: self.ok(rule, instance, site, note)
+        elif cond is None: self.inconclusive(rule, instance, site, why_bad)          # tri-state callers: not decided is not a refutation
         else: self.violation(rule, instance, site, why_bad, key=key, fn=fn, details=details)
         return cond
 
